@@ -262,6 +262,99 @@ def explore_chain(item):
     return rep
 
 
+# ---------------------------------------------------------------- Hexital member sets with their own timeframe / fill flags
+HSETS = [
+    [("SMA", {"period": 2, "timeframe": "T2"}), ("EMA", {"period": 2, "timeframe": "T2", "timeframe_fill": True})],
+    [("EMA", {"period": 2, "timeframe": "T2", "timeframe_fill": True}), ("SMA", {"period": 2, "timeframe": "T2"})],
+    [("OBV", {}), ("RSI", {"period": 2, "timeframe": "T2"}), ("SMA", {"period": 2, "timeframe": "T4", "timeframe_fill": True})],
+    [("MACD", {"fast_period": 2, "slow_period": 3, "signal_period": 2, "timeframe": "T4"}), ("TR", {"timeframe": "T2"})],
+]
+
+
+def _hx_view(hx):
+    from ..common import canon_candles
+    return tuple((k, canon_candles(v)) for k, v in sorted(hx.get_candles().items()))
+
+
+def _hx_members(hi):
+    from hexital.indicators import INDICATOR_MAP
+    return [INDICATOR_MAP[c](**kw) for c, kw in HSETS[hi]]
+
+
+def hset_run(hi, hfill, k0, raw, comp):
+    """-> (batch view, snapshots along the schedule)"""
+    from hexital import Hexital
+    hkw = {"timeframe_fill": True} if hfill else {}
+    hb = Hexital("b", fresh(raw), _hx_members(hi), **hkw)
+    hb.calculate()
+    hx = Hexital("s", fresh(raw[:k0]), _hx_members(hi), **hkw)
+    hx.calculate()
+    pos, snaps = k0, ([_hx_view(hx)] if k0 else [])
+    for k in comp:
+        hx.append(fresh(raw[pos:pos + k]))
+        pos += k
+        snaps.append(_hx_view(hx))
+    return _hx_view(hb), snaps
+
+
+def hset_repaint(snaps):
+    """closed candles (all but the last of every timeframe manager; the base manager has no open bucket) are final"""
+    for i in range(len(snaps)):
+        for j in range(i + 1, len(snaps)):
+            for (k1, c1), (k2, c2) in zip(snaps[i], snaps[j]):
+                c = c1 if k1 == "default" else c1[:-1]
+                if c2[:len(c)] != c:
+                    return (i, j, k1, first_diff(c, c2[:len(c)]))
+    return None
+
+
+def explore_hset(item):
+    """Hexital hosts: members on shared / nested timeframes with differing fill flags, history given at construction
+    (k candles) and the rest appended in every composition, over every gap word."""
+    prop, tier, hi, hfill, k0 = item
+    __import__("hxmc.common", fromlist=["bind_repo"]).bind_repo()
+    sp = spaces(tier)
+    rep = Report()
+    n = 5 if tier == "quick" else 7
+    word = PLUMB_WORDS[A.variant()["rot"] % len(PLUMB_WORDS)][:n]
+    for gaps in A.words("ht25", n - 1):
+        ts = A.timestamps("+", gaps, 120, A.variant()["base"])
+        raw = [A.shape(w) + (t.isoformat(),) for w, t in zip(word, ts)]
+        case = {"cfg": f"hset{hi}", "hset": hi, "hfill": hfill, "k0": k0, "tfc": ("T2", hfill, None, None), "raw": raw}
+        for comp in A.compositions(n - k0):
+            try:
+                with deadline(sp["horizon"] * 3):
+                    B, snaps = hset_run(hi, hfill, k0, raw, comp)
+            except Horizon:
+                rep.violation(f"{prop}|horizon|hset{hi}", dict(case, comp=comp, why="horizon"))
+                continue
+            except Exception as e:
+                rep.inc("hset_raised_" + type(e).__name__)
+                continue
+            rep.inc("executions", 2)
+            rep.inc("transitions", len(comp) + 2)
+            rep.add("states", snaps[-1])
+            if prop == "C01":
+                if snaps[-1] != B:
+                    rep.violation(f"C01|hexital-set-final!=batch|hset{hi}", dict(case, comp=comp, oracle="hset-final", diff=first_diff(snaps[-1], B)))
+                elif len(comp) >= 2:
+                    rep.add("nontrivial", ("hset", hi, hfill, k0, gaps, comp))
+            else:
+                bad = hset_repaint(snaps)
+                if bad:
+                    rep.violation(f"C02|hexital-set-repaint|hset{hi}", dict(case, comp=comp, oracle="hset-repaint", detail=bad))
+                elif len(comp) >= 2:
+                    rep.add("nontrivial", ("hset", hi, hfill, k0, gaps, comp))
+    rep.sample({"hexital_members": HSETS[hi], "hexital_fill": hfill, "history_at_construction": k0, "raw": raw})
+    return rep
+
+
+def replay_hset(case, prop):
+    __import__("hxmc.common", fromlist=["bind_repo"]).bind_repo()
+    B, snaps = hset_run(case["hset"], case["hfill"], case["k0"], [tuple(r) for r in case["raw"]], tuple(case["comp"]))
+    return snaps[-1] != B if prop == "C01" else bool(hset_repaint(snaps))
+
+
 # ---------------------------------------------------------------- step confluence (deeper N)
 
 
@@ -347,6 +440,8 @@ def replay(case):
         return True
     if orc in ("chain-final", "chain-repaint"):
         return explore_chain_one(case, "C01" if orc == "chain-final" else "C02")
+    if orc in ("hset-final", "hset-repaint"):
+        return replay_hset(case, "C01" if orc == "hset-final" else "C02")
     cfg = BY_LABEL[case["cfg"]]
     tfc = tuple(case["tfc"])
     raw = [tuple(r) for r in case["raw"]]
@@ -447,6 +542,7 @@ def main(prop, tier):
     gap_items = [(prop, tier, l, tfc, first, g0) for l in PLUMB_POOL for tfc in sp["plumb_tfcs"] for first in "+b" for g0 in sp["plumb_gaps"]]
     gap_items += [(prop, tier, l, sp["plumb_tfcs"][0], first, g0, 400000) for l in ("OBV", "VWAP", "EMA2", "ST2") for first in "+b" for g0 in sp["plumb_gaps"]]
     reps += pmap(explore_gaps, gap_items)
+    reps += pmap(explore_hset, [(prop, tier, hi, hfill, k0) for hi in range(len(HSETS)) for hfill in (False, True) for k0 in (0, 3)])
     reps += pmap(explore_chain, [(prop, tier, ci, order, tf) for ci in range(len(CHAINS)) for order in (0, 1) for tf in (None, "T2")])
     step_its = []
     for cfg in ALL:
